@@ -80,6 +80,25 @@ func c44PosOfOffset(s string, lines []c44Line, off int) (lsp.Position, bool) {
 	if off < len(s) && !utf8.RuneStart(s[off]) {
 		return lsp.Position{}, false
 	}
+	return c44PosOfBoundary(s, lines, off)
+}
+
+// c44PosUp is the conversion used for the byte ranges of parse errors (the
+// parser reports the culprit as [pos, pos+1) in bytes, which ends inside a
+// multi-byte culprit): an offset inside a UTF-8 sequence denotes the end of that
+// character, so that the range covers the whole character and never ends
+// between the halves of a surrogate pair. inside is true for such an offset; ok
+// is false only between the CR and the LF of a CRLF pair.
+func c44PosUp(s string, lines []c44Line, off int) (pos lsp.Position, inside, ok bool) {
+	for off < len(s) && !utf8.RuneStart(s[off]) {
+		off++
+		inside = true
+	}
+	pos, ok = c44PosOfBoundary(s, lines, off)
+	return pos, inside, ok
+}
+
+func c44PosOfBoundary(s string, lines []c44Line, off int) (lsp.Position, bool) {
 	for k, ln := range lines {
 		if off >= ln.start && off <= ln.end {
 			return lsp.Position{Line: k, Character: c44Units(s[ln.start:off])}, true
@@ -166,7 +185,21 @@ func c44CheckPositions(c *vk.Ctx, s string, counts map[string]int64) string {
 	for i := 0; i <= len(s); i++ {
 		want, ok := c44PosOfOffset(s, lines, i)
 		if !ok {
-			counts["offsets_not_at_character_boundary_not_judged"]++
+			up, inside, okUp := c44PosUp(s, lines, i)
+			if !inside || !okUp {
+				counts["offsets_inside_crlf_not_judged"]++
+				continue
+			}
+			counts["offsets_inside_character_judged"]++
+			var got lsp.Position
+			if p := vk.Try(func() { got = lspPositionFromIdx(s, i) }); p != "" {
+				c.Violate("position-conversion-panic:"+vk.PanicSite(p), fmt.Sprintf("document %q offset %d: %s", s, i, p), s)
+				return "panic"
+			}
+			if got != up {
+				c.Violate("offset-inside-character-to-position", fmt.Sprintf("document %q: lspPositionFromIdx(%d) [inside a UTF-8 sequence] = (line %d, char %d), want the end of that character (line %d, char %d)",
+					s, i, got.Line, got.Character, up.Line, up.Character), s)
+			}
 			continue
 		}
 		counts["offsets_judged"]++
@@ -436,11 +469,18 @@ func c44CheckDiags(uri, text string, got c44Publish, notJudged *int64) (string, 
 		return "diagnostics-count", fmt.Sprintf("document %q: %d diagnostics published %+v, the text has %d parse errors %v", text, len(got.Diagnostics), got.Diagnostics, len(errs), errs)
 	}
 	lines := c44Lines(text)
+	for _, d := range got.Diagnostics {
+		for _, p := range []lsp.Position{d.Range.Start, d.Range.End} {
+			if _, kind := c44KindOfPosition(text, lines, p); kind == "inside-surrogate" {
+				return "diagnostics-position-inside-surrogate", fmt.Sprintf("document %q: diagnostic %+v has an endpoint (line %d, char %d) between the two halves of a surrogate pair", text, d, p.Line, p.Character)
+			}
+		}
+	}
 	used := make([]bool, len(errs))
 	for _, e := range errs {
 		r := e.Range()
-		from, okF := c44PosOfOffset(text, lines, r.From)
-		to, okT := c44PosOfOffset(text, lines, r.To)
+		from, inF, okF := c44PosUp(text, lines, r.From)
+		to, inT, okT := c44PosUp(text, lines, r.To)
 		if !okF {
 			*notJudged++
 		}
@@ -456,7 +496,11 @@ func c44CheckDiags(uri, text string, got c44Publish, notJudged *int64) (string, 
 			break
 		}
 		if !found {
-			return "diagnostics-range", fmt.Sprintf("document %q: parse error %q at bytes [%d,%d) = positions (%d,%d)-(%d,%d) has no matching diagnostic among %+v",
+			key := "diagnostics-range"
+			if inF || inT {
+				key = "diagnostics-range-multibyte-culprit"
+			}
+			return key, fmt.Sprintf("document %q: parse error %q at bytes [%d,%d) = positions (%d,%d)-(%d,%d) has no matching diagnostic among %+v",
 				text, e.Message, r.From, r.To, from.Line, from.Character, to.Line, to.Character, got.Diagnostics)
 		}
 	}
@@ -642,6 +686,80 @@ func c44DocSweep(c *vk.Ctx, w *c44Workers, maxToks int) {
 	c.Add("diagnostic_endpoints_inside_crlf_not_judged", notJudged)
 }
 
+// ---- B1d: diagnostics of every small document over an alphabet with culprits
+// the parser rejects ON multi-byte characters (not printable per unicode.IsPrint:
+// U+00A0 2 bytes, U+3000 3 bytes, U+E0001 and U+10FFFF 4 bytes = 2 UTF-16 units),
+// also after CRLF and after a valid astral character on the same line.
+
+var c44DiagToks = []string{"$", "echo", " ", "[", ")", "x", "𝄞", "\u00a0", "\u3000", "\U000E0001", "\U0010FFFF", "\n", "\r", "\r\n"}
+
+func c44DiagSweep(c *vk.Ctx, w *c44Workers, maxToks int) {
+	n := len(c44DiagToks)
+	total := 0
+	offsets := []int{0}
+	pow := 1
+	for k := 0; k <= maxToks; k++ {
+		total += pow
+		offsets = append(offsets, total)
+		pow *= n
+	}
+	var notJudged, docs int64
+	var mu sync.Mutex
+	c.Parallel(total, func(l *vk.Local, i int) {
+		if w.giveUp() {
+			return
+		}
+		k := 0
+		for offsets[k+1] <= i {
+			k++
+		}
+		r := i - offsets[k]
+		idx := make([]int, k)
+		for j := k - 1; j >= 0; j-- {
+			idx[j] = r % n
+			r /= n
+		}
+		if !c44Canonical(c44DiagToks, idx) {
+			return
+		}
+		text := vk.Join(c44DiagToks, idx)
+		cl := w.get(l)
+		l.Begin(fmt.Sprintf("B1d document %q", text))
+		defer l.End()
+		uri := cl.uri("b1d")
+		var nj int64
+		defer func() { mu.Lock(); notJudged += nj; docs++; mu.Unlock() }()
+		if !cl.sendText("textDocument/didOpen", uri, text) {
+			w.crashed(l, cl, fmt.Sprintf("didOpen %q", text))
+			l.Case("B1d/crash")
+			return
+		}
+		pub, ok := cl.waitDiag()
+		if !ok {
+			w.crashed(l, cl, fmt.Sprintf("didOpen %q (waiting for publishDiagnostics)", text))
+			l.Case("B1d/crash")
+			return
+		}
+		if key, m := c44CheckDiags(uri, text, pub, &nj); key != "" {
+			c.Violate(key, "didOpen: "+m, text)
+		}
+		// class: per diagnostic (message, UTF-8 width of the culprit's first character, whether the range is empty)
+		_, err := parse.Parse(parse.Source{Name: uri, Code: text}, parse.Config{})
+		var cls []string
+		for _, e := range parse.UnpackErrors(err) {
+			r := e.Range()
+			_, wd := utf8.DecodeRuneInString(text[r.From:])
+			cls = append(cls, fmt.Sprintf("%s/w%d/len%d", e.Message, wd, r.To-r.From))
+		}
+		l.Case(fmt.Sprintf("B1d/%s/%s", c44Features(text), strings.Join(cls, ";")))
+		if i%9973 == 7000 {
+			c.Sample(map[string]any{"document": text, "diagnostics": pub.Diagnostics})
+		}
+	})
+	c.Set("b1d_documents", docs)
+	c.Add("diagnostic_endpoints_inside_crlf_not_judged", notJudged)
+}
+
 // ---- B2: request sequences.
 
 var c44SeqDocs = []string{"echo", "\r\n$!", "put 𝄞\r\n[", ""}
@@ -817,12 +935,14 @@ func TestVerifC44(t *testing.T) {
 		nA := vk.Pick(c, 7, 9)
 		nB1 := vk.Pick(c, 3, 4)
 		nB2 := vk.Pick(c, 3, 4)
+		nD := vk.Pick(c, 4, 5)
 		c.Rule(fmt.Sprintf("A: every document of <=%d symbols over %q (each string once), every byte offset and every position (line <= lines+1, char <= longest line+2); class = (character/line-ending kinds present, number of lines, longest line in UTF-16 units). "+
 			"B1: every document of <=%d tokens over %q opened on the server subprogram, hover and completion at every position (line <= lines+1, char <= that line's length+2); class = (kinds present, number and first message of diagnostics, set of reply kinds). "+
+			"B1d: every document of <=%d tokens over %q opened, diagnostics compared; class = (kinds present, per parse error: message, UTF-8 width of the culprit, range length). "+
 			"B2: every sequence of <=%d operations over didOpen/didChange of %q, hover/completion at %v and hover/completion on a never-opened URI; class = per-step (operation, position kind, reply kind)",
-			nA, c44Syms, nB1, c44Toks, nB2, c44SeqDocs, c44SeqPos))
+			nA, c44Syms, nB1, c44Toks, nD, c44DiagToks, nB2, c44SeqDocs, c44SeqPos))
 		c.Assume(
-			"oracle: LSP positions count UTF-16 code units (unicode/utf16) and LF, CR, CRLF each end one line; offsets inside a UTF-8 sequence or between CR and LF are not judged",
+			"oracle: LSP positions count UTF-16 code units (unicode/utf16) and LF, CR, CRLF each end one line; a byte offset inside a UTF-8 sequence (the parser ends the range of an error one BYTE after its start) denotes the end of that character; offsets between CR and LF are not judged",
 			"positions past the end of a line, past the last line or inside a surrogate pair: only 'in [0,len], at a rune boundary, monotone' is demanded (the mapping itself is not specified)",
 			"the parser (parse.Parse) is trusted for the byte ranges and messages of the parse errors",
 			"B: one long-lived server subprocess per worker (prog.Run with lsp.Program on stdin/stdout, PATH empty, empty working directory); every document/history uses a fresh URI; the client waits for each publishDiagnostics before the next message, so the interleaving of the server's publishing goroutines is not explored",
@@ -857,6 +977,10 @@ func TestVerifC44(t *testing.T) {
 		c44DocSweep(c, w, nB1)
 		w.stopAll()
 		fmt.Printf("INFO property=C44 part B1 took %.1fs\n", time.Since(t0).Seconds())
+		t0 = time.Now()
+		c44DiagSweep(c, w, nD)
+		w.stopAll()
+		fmt.Printf("INFO property=C44 part B1d took %.1fs\n", time.Since(t0).Seconds())
 		t0 = time.Now()
 		c44SeqSweep(c, w, nB2)
 		fmt.Printf("INFO property=C44 part B2 took %.1fs\n", time.Since(t0).Seconds())
